@@ -71,6 +71,61 @@ def expected_filing(year, values, sections, hx, pdfspec):
     return out
 
 
+def check_cli_fill(res, year, out, typed, label, rp, hx, pdfspec, pdfdrive):
+    """The whole path the user takes: solution() + [habutax] written to a file,
+    `habutax fill-pdfs` run on it; every text box must decode to the mapping
+    applied to the value the SOLVE produced (not to whatever the fill step read)."""
+    sol = out.solver.solution()
+    sol['habutax'] = {'tax_year': year, 'version': hx.habutax.__version__}
+    r = pdfdrive.fill_via_cli(sol)
+    res.evaluations += 1
+    res.count('cli_fills')
+    PF = hx.pdf_fields
+    if r.exc is not None:
+        if not isinstance(r.exc, (PF.PDFValueTooLong, PF.PDFInvalidChoiceValue)):
+            res.violation(f'C19|{year}|cli-fill-raises|{type(r.exc).__name__}', f'{label}: fill-pdfs raised {type(r.exc).__name__}: {str(r.exc)[:120]}', rp)
+        return
+    fm = hx.form_map(year)
+    for c in r.calls:
+        if c['op'] != 'fill_form':
+            continue
+        name = os.path.basename(c['argv'][c['argv'].index('output') + 1])[:-4]
+        cls = fm.get(name.split(':')[0])
+        if cls is None:
+            continue
+        fo = cls(instance=name.split(':')[1] if ':' in name else None)
+        try:
+            pairs = dict(pdfdrive.parse_fdf(c['fdf_bytes']))
+        except pdfdrive.FDFSyntaxError as e:
+            res.violation(f'C19|{year}|fdf-not-decodable', f'{label}: the form data for {name} does not parse under PDF string syntax: {e}', rp)
+            continue
+        fields = {f.name(): f for f in fo.fields()}
+        for pf in fo.pdf_fields():
+            q = pf.field_name if '.' in pf.field_name else f'{fo.name()}.{pf.field_name}'
+            if q not in typed:
+                continue
+            fld = fields.get(q)
+            if fld is None:
+                ofo = fm.get(q.split('.')[0].split(':')[0])
+                if ofo is None:
+                    continue
+                inst = q.split('.')[0].split(':')[1] if ':' in q.split('.')[0] else None
+                fld = {f.name(): f for f in ofo(instance=inst).fields()}.get(q)
+                if fld is None:
+                    continue
+            try:
+                exp = pf.value(typed[q], fld)
+            except BaseException:  # noqa
+                continue
+            res.count('cli_fdf_entries_compared')
+            got = pairs.get(pf.pdf_field_name)
+            if got is None:
+                res.violation(f'C19|{year}|fdf-entry-missing', f'{label}: {name}: no form-data entry for {pf.pdf_field_name}', rp)
+            elif got != exp and got.strip() != exp.strip():
+                res.violation(f'C19|{year}|cli-fdf-text-differs-from-solved-value|{text_class(exp)}',
+                              f'{label}: {name}: box {pf.pdf_field_name.split(".")[-1]} (line {q}) should carry {exp[:60]!r} - the text of the solved value - but the form data decodes to {got[:60]!r}', rp)
+
+
 def check_fill(res, year, sol_cp, label, rp, hx, pdfspec, pdfdrive, expect_error=False):
     """sol_cp: the solution as the CLI wrote it (without [habutax])."""
     r = pdfdrive.fill(sol_cp, year)
@@ -194,6 +249,9 @@ def run_shard(spec, tier, seed):
                     res.count('solution_unwritable')
                     continue
                 r = check_fill(res, year, cp, f'{year} {fam} {p.key}', realwork.replay_of(p, 'fill', spec), hx, pdfspec, pdfdrive)
+                if res.counters.get('cli_fills', 0) < (3 if tier == 'quick' else 40):
+                    typed = scen.typed_solution(out)      # the solved values, through solution() and each line's from_string
+                    check_cli_fill(res, year, out, typed, f'{year} {fam} {p.key}', realwork.replay_of(p, 'cli-fill', spec), hx, pdfspec, pdfdrive)
                 if len(res.samples) < 2 and r.exc is None:
                     res.sample({'persona': p.describe(), 'pdftk_calls': [c['argv'][-4:] if c['op'] == 'cat' else [os.path.basename(c['argv'][0]), 'fill_form'] for c in r.calls]})
         return res
@@ -290,6 +348,8 @@ def finalize(res, tier):
         res.inconclusive.append(f'only {c.get("fdf_entries_compared", 0)} form-data entries compared')
     if c.get('cat_orders_checked', 0) < 30:
         res.inconclusive.append('fewer than 30 concatenation orders checked')
+    if c.get('cli_fdf_entries_compared', 0) < 500:
+        res.inconclusive.append(f'only {c.get("cli_fdf_entries_compared", 0)} entries compared on the command-line path')
     if c.get('adversarial_texts', 0) < 30:
         res.inconclusive.append('adversarial texts not run')
     return {}
